@@ -646,6 +646,9 @@ def _work(args):
             continue
         ev = run_history(TEMPLATES[d], ops, is_async, sres)
         out.append({"d": d + 1, "ops": ops, "async": is_async, "sres": sres, "ev": ev})
+    if POISONED:
+        import common
+        common.arm_exit_if_threads_are_stuck()
     return out
 
 
@@ -655,9 +658,32 @@ def run_all(jobs, procs=12, chunk=30):
     chunks = [jobs[i:i + chunk] for i in range(0, len(jobs), chunk)]
     out = []
     pool = mp.get_context("fork").Pool(procs, maxtasksperchild=1)      # a fresh process per chunk: a hang poisons only its chunk
-    for r in pool.imap(_work, chunks):
-        out.extend(r)
-    pool.close()
+    hung, done = 0, 0
+    skip = lambda j, **kw: dict({"d": j[0] + 1, "ops": j[1], "async": j[2], "sres": j[3] if len(j) > 3 else "thread", "ev": [], "skipped": True}, **kw)  # noqa: E731
+    it = pool.imap(_work, chunks)
+    try:
+        while done < len(chunks):
+            try:
+                r = it.next(timeout=4 * OP_TIMEOUT + 60)
+            except mp.TimeoutError:
+                # the chunk that is due has not come back: an operation in it did not return and its time-out could not end it
+                # (a scheduler spinning outside the reach of the alarm).  The histories of that chunk are reported as wedged -
+                # e4.run turns them into a C09 violation - and the rest as skipped
+                out.extend(skip(j, wedged=True) for j in chunks[done])
+                for c in chunks[done + 1:]:
+                    out.extend(skip(j) for j in c)
+                break
+            out.extend(r)
+            done += 1
+            hung += any(x.get("skipped") or any(e.get("out") == 6 for e in x["ev"]) for x in r)
+            if hung >= 8:
+                # a tree on which operations keep hanging: every hang costs its time-out, eight chunks are enough for the
+                # verdict.  The histories that were not run are reported as skipped
+                for c in chunks[done:]:
+                    out.extend(skip(j) for j in c)
+                break
+    finally:
+        pool.terminate()
     pool.join()
     return out
 
